@@ -155,8 +155,9 @@ theorem map_heap_agree_in_progress (q : List Nat) (hq : q.Nodup) (al : Bool) (sc
   omega
 
 /-- the same statement about the instance of the micro-step model that the regenerated facts of the CURRENT TREE select
-(`Tie.Life.treeFixed / treeScanAtomic / treePushAtomic / treeAnsLock`; audit B12: a tree that reverts F7, F16 or F48 changes
-these parameters, the ties `tree_fixed`, `tree_scan_atomic`, `tree_push_atomic` fail and this is no longer a statement about it) -/
+(`Tie.Life.treeFixed / treeScanAtomic / treePushAtomic / treeAnsLock`; audit B12: a tree that reverts F7, F16, F48 or F27
+changes these parameters, the ties `tree_fixed`, `tree_scan_atomic`, `tree_push_atomic`, `tree_ans_lock` fail and this is no
+longer a statement about it) -/
 theorem map_heap_agree_tree (q : List Nat) (hq : q.Nodup) (sched : List InFlight.Step) (s : InFlight.St)
     (h : InFlight.run Nsq.Tie.Life.treeFixed
       { InFlight.initSt q with scanAtomic := Nsq.Tie.Life.treeScanAtomic, pushAtomic := Nsq.Tie.Life.treePushAtomic,
@@ -255,9 +256,11 @@ theorem empty_sections_clear (s s1 s2 s3 : InFlight.St)
 
 example : survivors [.put 1, .startMapPush 1 1 10, .startPQPush 1] [.scanPeek 50] = some [] := by decide
 
-/-! #### fixes/F27: REQ / TOUCH hold the channel's read lock (`St.ansLock`, tie `answers_channel_lock_shape`) -/
+/-! #### F27 (/repo ebb5df3, committed): REQ / TOUCH hold the channel's read lock (`St.ansLock`, tie `answers_channel_lock_shape`) -/
 
-/-- the tree as committed (F7, F16, F48) and the tree with the proposal fixes/F27 on top -/
+/-- `committedTree`: the tree BEFORE F27 (F7, F16, F48 only; the name dates from the round in which F27 was a proposal);
+`f27Tree`: with F27 on top — the tree as committed NOW (`tree_is_f27Tree` below: the parameters the regenerated facts
+compute are exactly these) -/
 def committedTree : InFlight.St := { InFlight.initSt [] with scanAtomic := true, pushAtomic := true }
 def f27Tree : InFlight.St := { InFlight.initSt [] with scanAtomic := true, pushAtomic := true, ansLock := true }
 
@@ -284,8 +287,8 @@ def emptyTouchSurvivorSchedule : List InFlight.Step :=
 def emptyScanSurvivorSchedule : List InFlight.Step :=
   [.scanPeek 50, .emptyResetInflight, .emptyResetDeferred, .emptyRest, .scanPop 1, .startMapPush 2 1 20, .startPQPush 1]
 
-/-- on the committed tree (F48 shape) all three variants leave message 1 in flight after the Empty (replays
-`empty_races_{req,touch,scan}_survives`) -/
+/-- on the tree BEFORE F27 (F48 shape) all three variants leave message 1 in flight after the Empty (replays
+`empty_races_{req,touch,scan}_survives`; the first two are listed `fixed` since ebb5df3, the scan variant is open) -/
 theorem empty_survivor_variants :
     survivorsOn committedTree [.put 1, .startMapPush 1 1 10, .startPQPush 1, .reqPop 1 1 0]
       [.reqRemove 1, .reqPut 1, .startMapPush 2 1 20, .startPQPush 1] = some [1] ∧
@@ -311,7 +314,7 @@ theorem f27_witnesses_impossible :
     (match InFlight.run true f27Tree [.put 1, .startMapPush 1 1 10, .startPQPush 1, .emptyResetInflight, .reqPop 1 1 0] with
      | InFlight.Res.disabled => true | _ => false) = true := by decide
 
-/-- **`empty_discards_held_fixed`** — tree with fixes/F27, EVERY schedule `pre` before and `post` after the Empty (no new
+/-- **`empty_discards_held_fixed`** — tree with F27 (/repo ebb5df3), EVERY schedule `pre` before and `post` after the Empty (no new
 publish in `post`), provided no timeout scan holds a message when Empty begins: nothing the channel held when `Empty` began
 — indeed nothing at all — is in flight after it.  (Hypothesis forced: `empty_discards_held_scan_false`.) -/
 theorem empty_discards_held_fixed (pre post : List InFlight.Step) (hp : noPut post = true)
@@ -335,8 +338,30 @@ theorem empty_discards_held_fixed (pre post : List InFlight.Step) (hp : noPut po
         hs post hp h2
       simp [hm]
 
+/-- the micro-step parameters of THIS tree, computed from the regenerated facts (`Tie.Life`) -/
+def treeSt : InFlight.St :=
+  { InFlight.initSt [] with scanAtomic := Nsq.Tie.Life.treeScanAtomic, pushAtomic := Nsq.Tie.Life.treePushAtomic,
+                            ansLock := Nsq.Tie.Life.treeAnsLock }
+
+/-- the facts decide all three `true` (F16, F48, F27 are committed; the ties accept only their shapes — audit B12) -/
+theorem tree_is_f27Tree : treeSt = f27Tree := by
+  simp [treeSt, f27Tree, Nsq.Tie.Life.tree_scan_atomic, Nsq.Tie.Life.tree_push_atomic, Nsq.Tie.Life.tree_ans_lock]
+
+/-- **THIS tree**: `empty_discards_held_fixed` stated over the computed parameters. A tree that reverts F27 fails
+`Tie.Life.tree_ans_lock` and this theorem with it. -/
+theorem empty_discards_held_this_tree (pre post : List InFlight.Step) (hp : noPut post = true)
+    (hs : noScanHeldAfter treeSt pre = true) :
+    survivorsOn treeSt pre post = none ∨ survivorsOn treeSt pre post = some [] := by
+  rw [tree_is_f27Tree] at hs ⊢
+  exact empty_discards_held_fixed pre post hp hs
+
+/-- non-vacuity: on this tree the REQ witness is no schedule any more -/
+example : survivorsOn treeSt [.put 1, .startMapPush 1 1 10, .startPQPush 1, .reqPop 1 1 0]
+    [.reqRemove 1, .reqPut 1, .startMapPush 2 1 20, .startPQPush 1] = none := by
+  rw [tree_is_f27Tree]; decide
+
 /-- the full claim for the F27 tree (without the scan hypothesis) is false: the timeout scan's window is not covered by
-fixes/F27 (it holds `exitMutex.RLock` only).  Replayed on the real code: `empty_races_scan_survives`; open finding
+F27 (it holds `exitMutex.RLock` only).  Replayed on the real code: `empty_races_scan_survives`; open finding
 `empty-races-timeout-scan-message-survives`. -/
 def EmptyDiscardsHeldF27Full : Prop :=
   ∀ (pre post : List InFlight.Step), noPut post = true → survivorsOn f27Tree pre post = none ∨ survivorsOn f27Tree pre post = some []
